@@ -1349,3 +1349,105 @@ func (m *Model) RunEvalState(s *Sink, rule string) {
 		s.OK(rule, "evaluator.Evaluator|no field is written after construction", "-", "%d stores into fields of an existing Evaluator, all counter steps", len(writes))
 	}
 }
+
+// RunAssignCases: `{{ x = value }}` by cases — Eval on an abstract assignment whose value evaluates to the integer
+// object V, in three environments: x unbound (afterwards x is V itself, in the scope of the statement), x an INTEGER
+// of an enclosing scope (the same), x a FLOAT of an enclosing scope (the statement yields an error and binds
+// nothing: a variable keeps its type, and no value is converted to fit).
+func (m *Model) RunAssignCases(s *Sink, rule string) {
+	ev := m.Method("evaluator", "Evaluator", "Eval")
+	ne := m.Method("evaluator", "Evaluator", "newError")
+	asT, idT := m.namedType("ast", "AssignStmt"), m.namedType("ast", "Identifier")
+	envT, intT, floatT, errT := m.namedType("object", "Env"), m.namedType("object", "Int"), m.namedType("object", "Float"), m.namedType("object", "Error")
+	key := "assignment by cases|the evaluated value is bound as it is; a variable keeps its type"
+	if ev == nil || ne == nil || asT == nil || idT == nil || envT == nil || intT == nil || floatT == nil || errT == nil {
+		s.Note(rule, key, "-", "Eval / newError / ast.AssignStmt / object types not found: no case evaluation")
+		return
+	}
+	fld := func(t *types.Named, name string) int {
+		st := t.Underlying().(*types.Struct)
+		for i := 0; i < st.NumFields(); i++ {
+			if canonFieldName(t, i, st.Field(i).Name()) == name {
+				return i
+			}
+		}
+		return -1
+	}
+	aName, aValue, iValue := fld(asT, "Name"), fld(asT, "Value"), fld(idT, "Value")
+	fStore, fOuter, nVal, fVal := fld(envT, "store"), fld(envT, "outer"), fld(intT, "Value"), fld(floatT, "Value")
+	if aName < 0 || aValue < 0 || iValue < 0 || fStore < 0 || fOuter < 0 || nVal < 0 || fVal < 0 {
+		s.Note(rule, key, "-", "fields not found: no case evaluation")
+		return
+	}
+	mkMap := func(kv map[string]any) *iMap {
+		mp := &iMap{vals: map[string]any{}, kval: map[string]constant.Value{}}
+		for k, v := range kv {
+			c := constant.MakeString(k)
+			mp.keys = append(mp.keys, c.ExactString())
+			mp.vals[c.ExactString()] = v
+			mp.kval[c.ExactString()] = c
+		}
+		return mp
+	}
+	xKey := constant.MakeString("x").ExactString()
+	bad, undecided := "", ""
+	for _, outerKind := range []string{"unbound", "INTEGER", "FLOAT"} {
+		outerVars := map[string]any{}
+		switch outerKind {
+		case "INTEGER":
+			outerVars["x"] = &iStruct{typ: intT, fields: map[int]any{nVal: constant.MakeInt64(1)}}
+		case "FLOAT":
+			outerVars["x"] = &iStruct{typ: floatT, fields: map[int]any{fVal: constant.MakeFloat64(1.5)}}
+		}
+		outer := &iStruct{typ: envT, fields: map[int]any{fStore: mkMap(outerVars), fOuter: iNil{}}}
+		inner := &iStruct{typ: envT, fields: map[int]any{fStore: mkMap(nil), fOuter: outer}}
+		vnode := iObj{"value"}
+		vobj := &iStruct{typ: intT, fields: map[int]any{nVal: constant.MakeInt64(7)}}
+		node := &iStruct{typ: asT, fields: map[int]any{aName: &iStruct{typ: idT, fields: map[int]any{iValue: constant.MakeString("x")}}, aValue: vnode}}
+		errObj := &iStruct{typ: errT, fields: map[int]any{}}
+		ip := &Interp{m: m, useGlobals: true}
+		ip.call = func(c *ssa.Call, args []any) (any, bool) {
+			switch c.Call.StaticCallee() {
+			case ev:
+				if len(args) >= 2 && args[1] == any(vnode) {
+					return vobj, true
+				}
+			case ne:
+				return errObj, true
+			}
+			return nil, false
+		}
+		res, known := ip.Run(ev, []any{iObj{"evaluator"}, node, inner})
+		if ip.stuck != "" || len(ip.lost) > 0 || !known {
+			undecided = outerKind + ": " + ip.stuck
+			break
+		}
+		bound, isBound := inner.fields[fStore].(*iMap).vals[xKey]
+		ro, _ := res.(*iStruct)
+		switch outerKind {
+		case "FLOAT":
+			if ro != errObj {
+				bad = "with x a FLOAT of an enclosing scope, `x = <integer>` does not yield an error"
+			} else if isBound {
+				bad = "with x a FLOAT of an enclosing scope, `x = <integer>` binds x although it fails"
+			}
+		default:
+			if ro == errObj {
+				bad = "with x " + outerKind + ", `x = <integer>` yields an error"
+			} else if !isBound || bound != any(vobj) {
+				bad = "with x " + outerKind + ", after `x = value` the scope of the statement does not hold the evaluated value itself under x"
+			}
+		}
+		if bad != "" {
+			break
+		}
+	}
+	switch {
+	case undecided != "":
+		s.Note(rule, key, "-", "case evaluation not possible (%s)", undecided)
+	case bad != "":
+		s.Violation(rule, key, m.Pos(ev.Pos()), "evaluating an assignment: %s — a value is converted or a type clash tolerated on the way into the variable, so the render succeeds where the property demands an error (or binds something else than what was evaluated)", bad)
+	default:
+		s.OK(rule, key, m.Pos(ev.Pos()), "case evaluation of Eval on an abstract assignment in three environments")
+	}
+}
